@@ -19,8 +19,10 @@ pub enum ArenaState {
     SharedWithLiveIovec,
     /// this many bytes left in the arena's current chunk
     BytesLeft(u8),
+    /// fresh arena, and the client drops every Data chunk before asking for the next one
+    FreshDropEach,
 }
-pub const ARENA_STATES: [ArenaState; 11] = [
+pub const ARENA_STATES: [ArenaState; 12] = [
     ArenaState::Fresh,
     ArenaState::OneByteLeft,
     ArenaState::SharedWithLiveIovec,
@@ -32,6 +34,7 @@ pub const ARENA_STATES: [ArenaState; 11] = [
     ArenaState::BytesLeft(7),
     ArenaState::BytesLeft(8),
     ArenaState::BytesLeft(9),
+    ArenaState::FreshDropEach,
 ];
 
 pub fn block_name(b: Option<usize>) -> String {
@@ -69,7 +72,7 @@ fn chunker_run_inner(stream: &[u8], block: usize, sched: &Sched, arena_state: Ar
     let live0 = live();
     let mut iov: OwningIovec<'static> = OwningIovec::new();
     match arena_state {
-        ArenaState::Fresh => {}
+        ArenaState::Fresh | ArenaState::FreshDropEach => {}
         ArenaState::OneByteLeft | ArenaState::BytesLeft(_) => {
             let leave = match arena_state {
                 ArenaState::BytesLeft(k) => k as usize,
@@ -131,10 +134,23 @@ fn chunker_run_inner(stream: &[u8], block: usize, sched: &Sched, arena_state: Ar
                 }
                 prev_data_last = bytes.last().copied();
                 let copy = bytes.to_vec();
-                held.push((slice, copy));
+                if arena_state == ArenaState::FreshDropEach {
+                    // a client that is done with each chunk before asking for the next one: nothing
+                    // but the chunker itself keeps the arena's chunks alive
+                    drop(slice);
+                } else {
+                    held.push((slice, copy));
+                }
             }
         }
         if rebuilt.len() > stream.len() || stream[..rebuilt.len()] != rebuilt[..] {
+            let at = rebuilt.iter().zip(stream.iter()).position(|(a, b)| a != b);
+            if let Some(i) = at {
+                if rebuilt[i] == 0xFC {
+                    // 0xFC is what the quarantine (hook H1) writes over a released chunk
+                    return Err(format!("[content] [live] byte {} of the chunks so far is {:#04X} instead of {:#04X}: the poison written over released arena chunks, i.e. the chunker read a byte from a chunk it had let go", i, rebuilt[i], stream[i]));
+                }
+            }
             return Err(format!("[content] chunks so far [{}] are not a prefix of the stream", hex(&rebuilt)));
         }
     }
